@@ -53,7 +53,8 @@ theorem C10_endmarker_once {fails : Item → Bool} {st : State} (h : Reachable f
 
 /-- **C10 (the endmarker is delivered).** If an endmarker was requested and the conversation has ended
 at this side — the peer's CLOSE / CLOSE_ERROR / LAST_MESSAGE was handled (explicit close, end of the
-remote execution, remote error), the side closed locally, or the connection was lost or terminated —
+remote execution, remote error), the side closed locally, or the receiver thread ended (connection lost
+or terminated, or a callback raising after the IO was closed) —
 then the endmarker HAS been delivered, also when the local channel object had been dropped (the
 callback entry outlives the object). -/
 theorem C10_endmarker_eventually {fails : Item → Bool} {st : State} (h : Reachable fails st) (p : Side) (id : Nat)
@@ -62,7 +63,7 @@ theorem C10_endmarker_eventually {fails : Item → Bool} {st : State} (h : Reach
   Net.C10_endmarker_eventually p id (cbAll_reachable h).2 hw he hb
 
 /-- … and the three endings do set `ended`: handling any closing frame of the peer, and the receiver
-epilogue (connection loss or termination) for every channel that still had a callback or object. -/
+epilogue (connection loss, termination, or a callback raising after the IO was closed) for every channel that still had a callback or object. -/
 theorem C10_endings_end (fails : Item → Bool) (x : SideSt) (id : Nat) (err : Option Nat) (so : Bool) (isCut : Bool) :
     (localClose x id err so).ended id = true ∧
     ((x.cbs id).isSome = true → (epilogue x isCut).ended id = true) := by
@@ -83,5 +84,23 @@ item, item, endmarker and a later receive is refused -/
 example : (let r := run (fun _ => false) init [.remoteExec, .deliver .B, .send .B 1 ⟨7, []⟩, .send .B 1 ⟨8, []⟩,
       .deliver .A, .setcallback .A 1 true, .deliver .A, .execFinish 1 .ret, .deliver .A, .receive .A 1]
     (r.1.getLast?, r.2.a.cbLog 1)) = (some .osError, [.item ⟨7, []⟩, .item ⟨8, []⟩, .endmarker]) := by decide
+
+end ExecnetVerif
+
+namespace ExecnetVerif
+
+/-- **C10 (MultiChannel).** `MultiChannel.make_receive_queue` installs one callback per member channel,
+each appending `(channel, event)` to ONE shared FIFO.  Whatever the interleaving of the member
+channels' callback invocations, the projection of the queue on a member channel is exactly that
+channel's callback-event sequence — so every per-channel guarantee above (each item once, in order,
+then one endmarker) holds per member. -/
+theorem C10_multichannel {Ch Ev : Type} [DecidableEq Ch] (events : List (Ch × Ev)) (c : Ch) :
+    ((events.foldl (fun q e => q ++ [e]) ([] : List (Ch × Ev))).filter (fun e => e.1 = c)).map Prod.snd
+      = (events.filter (fun e => e.1 = c)).map Prod.snd := by
+  have : ∀ (acc : List (Ch × Ev)), events.foldl (fun q e => q ++ [e]) acc = acc ++ events := by
+    induction events with
+    | nil => intro acc; simp
+    | cons e t ih => intro acc; simp [ih]
+  rw [this []]; simp
 
 end ExecnetVerif
